@@ -709,6 +709,43 @@ func (s *Sim) assume(fr *Frame, st *State, cond ssa.Value, val bool) {
 				if a.K == KPath {
 					st.nz[a.Key()] = pfact{!eq, fr.Fn}
 				}
+			} else if loc != nil && loc.Referrers() != nil {
+				// the value just stored into a location (n := x.f - 1; x.f = n; if n == 0): the same fact about the
+				// location, when the store is in the block of the test and nothing writes the field after it
+				for _, r := range *loc.Referrers() {
+					sto, isSt := r.(*ssa.Store)
+					if !isSt || sto.Val != loc || sto.Block() != x.Block() {
+						continue
+					}
+					f := FieldOfAddr(sto.Addr)
+					if f == "" {
+						continue
+					}
+					after, clean := false, true
+					for _, in2 := range sto.Block().Instrs {
+						if in2 == ssa.Instruction(sto) {
+							after = true
+							continue
+						}
+						if !after {
+							continue
+						}
+						switch y := in2.(type) {
+						case *ssa.Store:
+							if FieldOfAddr(y.Addr) == f {
+								clean = false
+							}
+						case *ssa.Call:
+							clean = false // a call may write the field
+						}
+					}
+					if !clean {
+						continue
+					}
+					if a := s.P.Eval(fr, sto.Addr); a.K == KPath {
+						st.nz[a.Key()] = pfact{!eq, fr.Fn}
+					}
+				}
 			}
 			if isBool(x.X.Type()) {
 				if b, ok := s.evalBool(fr, st, x.Y); ok {
